@@ -19,6 +19,10 @@ import (
 // once and finds the running case through curWorld (one case at a time).
 const implType = "c18-script"
 
+// decoyType is a second registered client type whose constructor fails at once
+// (Scenario.Decoy): it exercises the client's "try all types in parallel".
+const decoyType = "c18-decoy"
+
 var (
 	registerOnce sync.Once
 	curWorld     atomic.Pointer[world]
@@ -33,6 +37,13 @@ func register() {
 			}
 			return w.newImpl(ctx, d)
 		})
+		client.RegisterTest(decoyType, func(ctx context.Context, d client.Destination) (client.Impl, error) {
+			w := curWorld.Load()
+			if w == nil {
+				return nil, errors.New("clientprop: no scenario is running")
+			}
+			return nil, w.scriptedErr("decoy", w.sc.Decoy, errScriptDecoy)
+		})
 	})
 }
 
@@ -42,6 +53,8 @@ var (
 	errScriptSubscribe = errors.New("scripted subscribe error")
 	errScriptRecv      = errors.New("scripted receive error")
 	errTransportClosed = errors.New("transport is closed")
+	errScriptClose     = errors.New("scripted close error")
+	errScriptDecoy     = errors.New("decoy client type never connects")
 )
 
 // event is one entry of the recorded history of a case.
@@ -94,6 +107,9 @@ type world struct {
 	pending  int // plain: buffered messages still to hand over after Close
 	aborted  bool
 	closeRet int // len(events) when Close returned, -1 before
+	// errUsed: "site:kind" of every scripted failure that was actually
+	// returned with a non-default error kind (labels only).
+	errUsed map[string]bool
 
 	never chan struct{} // never closed: parks the code under test once a case is over
 	gate  chan struct{} // plain: opened once Close has returned
@@ -110,6 +126,20 @@ func (w *world) record(kind string, attempt int, note string) int {
 	defer w.mu.Unlock()
 	w.events = append(w.events, event{Kind: kind, Attempt: attempt, At: w.now(), Note: note})
 	return len(w.events)
+}
+
+// scriptedErr builds the error value a failing step returns and notes that a
+// non-default kind was used at site ("connect", "subscribe", "recv", "close").
+func (w *world) scriptedErr(site, kind string, base error) error {
+	if kind != "" {
+		w.mu.Lock()
+		if w.errUsed == nil {
+			w.errUsed = map[string]bool{}
+		}
+		w.errUsed[site+":"+kind] = true
+		w.mu.Unlock()
+	}
+	return mkErr(kind, base)
 }
 
 func (w *world) isAborted() bool {
@@ -185,7 +215,7 @@ func (w *world) newImpl(ctx context.Context, d client.Destination) (client.Impl,
 		return nil, ctx.Err()
 	}
 	if fail {
-		return nil, ferr
+		return nil, w.scriptedErr("connect", as.script.ConnErr, ferr)
 	}
 	w.mu.Lock()
 	as.connected = true
@@ -208,7 +238,7 @@ func (i *impl) Subscribe(ctx context.Context, q client.Query) error {
 		return err
 	}
 	if i.as.script.Sub == "err" {
-		return errScriptSubscribe
+		return i.w.scriptedErr("subscribe", i.as.script.SubErr, errScriptSubscribe)
 	}
 	i.w.mu.Lock()
 	i.as.nh, i.as.ph = q.NotificationHandler, q.ProtoHandler
@@ -220,12 +250,16 @@ func (i *impl) Subscribe(ctx context.Context, q client.Query) error {
 
 func (i *impl) Poll() error { return nil }
 
-// Close unblocks a pending Recv, as closing a real connection does.
+// Close unblocks a pending Recv, as closing a real connection does. It reports
+// an error of the scripted kind (every call does), but always closes.
 func (i *impl) Close() error {
 	i.as.closeOnce.Do(func() {
 		i.w.record("impl-close", i.as.idx, "")
 		close(i.as.closed)
 	})
+	if k := i.as.script.CloseErr; k != "" {
+		return i.w.scriptedErr("close", k, errScriptClose)
+	}
 	return nil
 }
 
@@ -317,7 +351,7 @@ func (i *impl) Recv() (err error) {
 		case "stop":
 			return client.ErrStopReading
 		default:
-			return errScriptRecv
+			return w.scriptedErr("recv", as.script.EndErr, errScriptRecv)
 		}
 	}
 }
